@@ -3,8 +3,10 @@ package bkl
 import (
 	"bytes"
 	"fmt"
+	"io"
 	"regexp"
 	"strconv"
+	"strings"
 
 	"gopkg.in/yaml.v3"
 )
@@ -49,19 +51,35 @@ func yamlUnmarshalStream(in []byte) ([]any, error) {
 	ret := []any{}
 
 	for _, s := range parts {
-		var node yaml.Node
+		// A part can itself hold several documents when a boundary is not a
+		// bare "---" line ("--- # comment", trailing blanks, CRLF line ends,
+		// content on the marker line): decode all of them, not just the first.
+		dec := yaml.NewDecoder(strings.NewReader(s))
 
-		err := yaml.Unmarshal([]byte(s), &node)
-		if err != nil {
-			return nil, err
+		for first := true; ; first = false {
+			var node yaml.Node
+
+			err := dec.Decode(&node)
+			if err == io.EOF {
+				if first {
+					// Empty part: an empty document
+					ret = append(ret, nil)
+				}
+
+				break
+			}
+
+			if err != nil {
+				return nil, err
+			}
+
+			obj, err := yamlTranslateNode(&node, map[*yaml.Node]bool{})
+			if err != nil {
+				return nil, err
+			}
+
+			ret = append(ret, obj)
 		}
-
-		obj, err := yamlTranslateNode(&node, map[*yaml.Node]bool{})
-		if err != nil {
-			return nil, err
-		}
-
-		ret = append(ret, obj)
 	}
 
 	return ret, nil
